@@ -447,6 +447,16 @@ def _unit_names(fi, roots, aliases):
     return out
 
 
+def _reported_by_r1(ctx, fname):
+    """C17.R1 / R2 has reported (as a new violation, exit 1) a store of this
+    converter that is not a conversion of its own path, or a path that is
+    never converted: the stores R11 cannot find are accounted for by that
+    report, so their absence is not blindness of R11."""
+    return any(v['rule'] in ('C17.R1', 'C17.R2') and
+               ('(%s)' % fname) in v.get('where', '')
+               for v in ctx.violations)
+
+
 def run(ctx):
     ctx.decided.append(
         'R11 a dimensional input value is converted whenever it is there: '
@@ -543,13 +553,14 @@ def run(ctx):
                             RULE, fi, node,
                             'every dimensional input value is converted '
                             'whenever it is given: ' + msg, key=key)
-        if seen_here == 0:
+        if seen_here == 0 and not _reported_by_r1(ctx, fname):
             raise AnalysisError('%s: no conversion store P = conv(P) found '
                                 '(C17.R11 went blind)' % fname)
     # confirmed by reading the pinned tree: 25 conversion stores (20 length,
     # 4 temperature, 1 flow rate), 26 (store, condition) pairs
     if not any(i['rule'] == RULE and i['verdict'] != 'holds'
-               for i in ctx.instances):
+               for i in ctx.instances) and not any(
+                   _reported_by_r1(ctx, f_) for f_ in _DIMS):
         if n_sites < 22:
             raise AnalysisError('C17.R11 saw %d conversion stores, expected '
                                 '>= 22 (rule went blind)' % n_sites)
